@@ -110,7 +110,8 @@ def _seq_strategy(n, weights):
         # the shape C03 is about: two transactions that overlap on an object; the loser has already handed
         # other records to the storage when the conflict is found; then the world goes on
         op = mvccprog.op_strategy(nc, weights)
-        x, y = st.sampled_from(mvccprog.PLAIN + mvccprog.COUNTERS), st.sampled_from(mvccprog.PLAIN + mvccprog.COUNTERS)
+        pool = mvccprog.PLAIN + mvccprog.COUNTERS + [mvccprog.ROOT]
+        x, y = st.sampled_from(pool), st.sampled_from(pool)
 
         def w(c, nme, k):
             return ['inc', c, nme, k] if nme in mvccprog.COUNTERS else ['write', c, nme]
@@ -125,7 +126,13 @@ def _seq_strategy(n, weights):
             + ([w(0, t[2], t[3])] if t[2] != t[1] else [w(0, [n for n in mvccprog.PLAIN if n != t[1]][0], t[3])])
             + ([['savepoint', 0]] if t[4] else []) + ([['readcurrent', 0, t[1]]] if t[5] else [])
             + [w(1, t[1], t[3]), ['commit', 1], ['commit', 0]] + t[6])
-        return st.one_of(free, free.map(list), phased, phased_rc)
+        # ... and after savepoints: the loser has saved two objects, conflicts on one, and goes on using the other
+        phased_sp = st.tuples(st.lists(op, max_size=3), x, y, st.integers(1, 3), st.lists(op, min_size=1, max_size=6)).map(
+            lambda t: t[0] + [['begin', 0], ['begin', 1], w(0, t[1], t[3])]
+            + [w(0, t[2] if t[2] != t[1] else [n for n in mvccprog.PLAIN if n != t[1]][0], t[3]), ['savepoint', 0], w(1, t[1], t[3]), ['commit', 1],
+               ['commit', 0], ['readall', 0], ['read', 0, mvccprog.ROOT]]
+            + [w(0, t[2] if t[2] != t[1] else [n for n in mvccprog.PLAIN if n != t[1]][0], t[3]), ['commit', 0]] + t[4])
+        return st.one_of(free, free.map(list), phased, phased_rc, phased_sp)
     return st.integers(2, 3).flatmap(lambda nc: st.fixed_dictionaries({
         'kind': st.sampled_from(['fs', 'fs', 'mapping', 'demo', 'demo-fs']),
         'nconn': st.just(nc), 'pool': st.sampled_from([1, 2, 7]),
